@@ -56,6 +56,15 @@ Definition c01_cell_neg_literal (st : list R) (a : nat) : R * list R :=
 Definition c01_cell_neg (st : list R) (a : nat) : R * list R := (c01_opp K (c01_at K st a), st).
 Definition c01_cell_binop (f : R -> R -> R) (st : list R) (a m : nat) : R * list R := (f (c01_at K st a) (c01_at K st m), st).
 
+(* ------------------------------------------------------------------ the SCALAR argument is the entry i0 of the receiver, passed by
+   const reference (x *= x[0], x.axpy(x[0], y), ...): g i a k = new value of component i from its old value a and the scalar k.
+   literal: the loops as written before fix C01-8 re-read the scalar through the reference in every iteration;
+   c01_vec_elem: the scalar is read once, before the loop (by-value copy) *)
+Definition c01_vec_elem_literal (g : nat -> R -> R -> R) (x : list R) (i0 : nat) : list R :=
+  c01_for (length x) (fun i v => c01_upd v i (g i (c01_at K v i) (c01_at K v i0))) x.
+Definition c01_vec_elem (g : nat -> R -> R -> R) (x : list R) (i0 : nat) : list R :=
+  let k := c01_at K x i0 in c01_for (length x) (fun i v => c01_upd v i (g i (c01_at K v i) k)) x.
+
 (* DynamicVector::resize(n, k) (std::vector semantics), DynamicMatrix::resize(r, c, v) (all entries lost) *)
 Definition c01_resize (x : list R) (n : nat) (k : R) : list R := firstn n x ++ repeat k (n - length x).
 Definition c01_mresize (r c : nat) (v : R) : list (list R) := repeat (repeat v c) r.
